@@ -119,6 +119,8 @@ def run(ctx, rep):
     key_rule(f, _P2(f), rep, 'C12.7')
     rep.rule('C12.8', 'the in-RAM count of L1 entries the header covers is raised only after the header update succeeded')
     header_mirror_rule(f, rep)
+    from . import c08
+    c08.grant_rule(f, P, rep, 'C12.9')
     rep.rule('C12.6', 'the fresh refblock of the growth path accounts for the refblock and every cluster of the relocated table')
     growth_refcount_rule(f, rep)
     rep.floor('zero/punch wrappers', len(wrappers), 1)
@@ -190,6 +192,7 @@ def header_mirror_rule(f, rep):
     """update_header_entries (what the L1 table believes the on-disk header covers) must come after the
     successful header commit: if it is raised first and the commit fails, the rollback restores the header
     but the table keeps the larger count, and the retry skips the header extension"""
+    from ..absint import AbsInt, short_vn
     n = 0
     for b in f.body_list:
         if '::tests::' in b.path or not b.is_coroutine:
@@ -198,12 +201,43 @@ def header_mirror_rule(f, rep):
         if not ups:
             continue
         commits = [bi for bi, t in b.calls() if (t.get('fn') or '').endswith('::flush_header_for_l1_table') or (t.get('fn') or '').endswith('::commit_header')]
+        # values: the count committed to the header and the count mirrored into the table
+        ai = AbsInt(f)
+        vals = {}
+
+        def grab(ai_, st, frame, b_, bi_, t_, args, _b=b):
+            if frame[0] is None and b_.path == _b.path:
+                vals[bi_] = args[-1]
+            return None
+        ai.hooks['::flush_header_for_l1_table'] = grab
+        ai.hooks['L1Table::update_header_entries'] = grab
+        ai.analyze(b.path)
+
+        def peel(v):
+            k = 0
+            while isinstance(v, tuple) and v and v[0] in ('wrap', 'cast') and k < 8:
+                v = v[1]
+                k += 1
+            return v
         for bi, t in ups:
             n += 1
             # the commit's future is created at a call block; its success continuation dominates what follows the `?`
-            ok = any(b.dominates(c, bi) and polled_between(b, c, bi) for c in commits)
+            doms = [c for c in commits if b.dominates(c, bi) and polled_between(b, c, bi)]
+            ok = bool(doms)
             rep.ob('C12.8', 'update_header_entries in %s at %s' % (short(b.path), b.where(bi)), ok,
                    'after the awaited header update' if ok else 'not dominated by a completed header update')
+            if ok and bi in vals:
+                cm = [c for c in doms if c in vals and (b.blocks[c]['term'].get('fn') or '').endswith('::flush_header_for_l1_table')]
+                if cm:
+                    same = any(peel(vals[c]) == peel(vals[bi]) for c in cm)
+                    rep.ob('C12.8', 'count mirrored in %s at %s equals the count committed' % (short(b.path), b.where(bi)), same,
+                           'mirrored %s; committed %s' % (short_vn(peel(vals[bi]))[:80], [short_vn(peel(vals[c]))[:80] for c in cm]))
+                    if not same:
+                        rep.violation('C12.8', 'C12.8:%s:count' % short(b.path), b.where(bi),
+                                      '%s records %s as the number of L1 entries the on-disk header covers, but the header was written '
+                                      'with %s: the table believes entries are active that the header does not list, the header is never '
+                                      'extended again and mappings installed there are invisible to any reader of the file' % (
+                                          short(b.path), short_vn(peel(vals[bi]))[:80], [short_vn(peel(vals[c]))[:80] for c in cm]))
             if not ok:
                 rep.violation('C12.8', 'C12.8:%s' % short(b.path), b.where(bi),
                               '%s raises the number of L1 entries the header is believed to cover before the header update has '
